@@ -378,6 +378,17 @@ def generate(run_seed, fault_config="all", jit=False, budget=4.0, max_pto=2, all
             est = est_sites(kind, settings[s_]["theory"], settings[s_]["obs"], scope, first)
         op["faults"] = gen_faults(frng, kind, weighted, rate, est)
         ops.append(op)
+        if kind.endswith("get_result") and any(f["do"].startswith("interrupt") for f in op["faults"]) \
+                and frng.random() < 0.7:
+            # faults without workload test nothing: an interrupted request is usually followed by the
+            # caller simply asking again (same request, no fault) — the state the interrupt left behind
+            # is exactly what that retry meets
+            retry = copy.deepcopy(op)
+            retry["id"] = len(ops)
+            retry["faults"] = []
+            retry["retry_of"] = op["id"]
+            handles.append(len(ops))
+            ops.append(retry)
         if not pending and sum(1 for o in ops if o["op"].endswith("get_result")) >= 2 and ops_rng.random() < 0.12:
             break
     trace = {
